@@ -30,6 +30,11 @@ func startNode() (gen.Node, gen.PID) {
 	if err != nil {
 		panic(err)
 	}
+	theFallback = &fallbackActor{}
+	fallbackPID, err = node.SpawnRegister(fallbackName, func() gen.ProcessBehavior { return theFallback }, gen.ProcessOptions{})
+	if err != nil {
+		panic(err)
+	}
 	return node, hp
 }
 
@@ -48,6 +53,10 @@ func genMsg(r *rand.Rand, id int) Msg {
 
 func genCase(r *rand.Rand) Case {
 	c := Case{Named: r.Intn(3) == 0, InitOK: r.Intn(10) != 0}
+	if r.Intn(3) == 0 {
+		c.Limit = 1 + r.Intn(3)
+		c.Fallback = r.Intn(2) == 0
+	}
 	id := 1
 	for i := r.Intn(3); i > 0; i-- {
 		m := genMsg(r, id)
@@ -92,6 +101,8 @@ func tinyConfigs() []Case {
 		{InitOK: true, Named: true, Threads: []Thread{{Kind: "S", ByName: true, Msgs: []Msg{ok(1, 1, 0), ok(2, 2, 0)}}, {Kind: "S", Msgs: []Msg{{ID: 3, Q: 2, Beh: "call"}}}}},
 		{InitOK: true, Threads: []Thread{{Kind: "S", Msgs: []Msg{{ID: 1, Q: 2, Beh: "call", N: 0}}}, {Kind: "K"}, {Kind: "K"}}},
 		{InitOK: true, Threads: []Thread{{Kind: "S", Msgs: []Msg{{ID: 1, Q: 2, Beh: "panic"}}}, {Kind: "S", Msgs: []Msg{ok(2, 2, 0)}}, {Kind: "K"}}},
+		{InitOK: true, Limit: 1, Fallback: true, Threads: []Thread{{Kind: "S", Msgs: []Msg{ok(1, 2, 0), ok(2, 2, 0)}}, {Kind: "S", Msgs: []Msg{ok(3, 2, 0)}}}},
+		{InitOK: true, Limit: 1, Self: []Msg{ok(1, 2, 0), ok(2, 2, 0)}, Threads: []Thread{{Kind: "S", Msgs: []Msg{ok(3, 2, 0)}}}},
 	}
 }
 
@@ -188,6 +199,8 @@ func main() {
 			}
 			emit(o, rp.Case, runCase(node, hp, rp.Case), "corpus:"+fn)
 		}
+	case "delayed":
+		runDelayed(node, *n, o)
 	case "meta":
 		var cases []MCase
 		if *replay != "" {
